@@ -273,7 +273,11 @@ void place_labels(GenCtx &c, std::vector<Stmt> &body) {
       for (size_t i = 0; i < all.size(); i++)
         for (auto *lp : all[i].loops)
           if (std::find(all[(size_t)first_ref].loops.begin(), all[(size_t)first_ref].loops.end(), lp) == all[(size_t)first_ref].loops.end()) { into.push_back(i); break; }
-    if (!into.empty() && c.rng.chance(1, 3)) pos = into[c.rng.below(into.size())];
+    // a label on an unconditional jump (a jump to a jump), most interesting when reached by a backward jump
+    std::vector<size_t> on_goto;
+    if (c.gp.label_on_goto) for (size_t i = 0; i < all.size(); i++) if (all[i].s->k == Stmt::GOTO && all[i].s->target != name) on_goto.push_back(i);
+    if (!on_goto.empty() && c.rng.chance(1, 4)) pos = on_goto[c.rng.below(on_goto.size())];
+    else if (!into.empty() && c.rng.chance(1, 3)) pos = into[c.rng.below(into.size())];
     else if (first_ref >= 0 && first_ref + 1 < (int)all.size() && c.rng.chance(uncond ? 17 : 10, 20))
       pos = (size_t)c.rng.range(first_ref + 1, (long)all.size() - 1);
     else
@@ -450,6 +454,15 @@ Ast generate_ast(Rng &rng, const GenParams &gp) {
       size_t j = i + 2 + rng.below(a.main.size() - i - 2);
       a.main.insert(a.main.begin() + j, copy);
     }
+  }
+  if (gp.tail_after_stop > 0 && gp.allow_jumps && !gp.loop_only_bias && (int)rng.below(100) < gp.tail_after_stop) {
+    std::string v = c.vars[rng.below(c.vars.size())];
+    Stmt j; j.k = rng.chance(1, 2) ? Stmt::GOTO : Stmt::IF; j.var = v; j.c = rng.chance(1, 2) ? 0 : 1; j.target = "t_end";
+    a.main.insert(a.main.begin() + rng.below(a.main.size() + 1), j);
+    Stmt st; st.k = Stmt::STOP; a.main.push_back(st);
+    Stmt t; t.k = Stmt::ASSIGN; t.var = v; t.val.k = Val::VAR; t.val.var = v; t.labels.push_back("t_end");
+    if (rng.chance(1, 3)) { t.val.k = Val::ADD; t.val.c = rng.range(0, 2); }
+    a.main.push_back(t);
   }
   number_statements(a);
   return a;
